@@ -82,6 +82,7 @@ def prepare(ch):
     prep.src = g.src(items, ("agen", "aiter_cls", "aiterable", "aiter_noclose", "agen", "aiter_full", "sync_iter", "list", "aiter_proxy"))
     # the iterable handed to scoped_iter may itself be a borrowed handle: the scope must end *that* handle at exit
     # (and, being only borrowed, what is underneath stays open)
+    prep.src.lazy_open = False  # (the probes after the block advance iterators directly)
     prep.borrowed = prep.src.flavour in ("agen", "aiter_cls", "aiter_full") and ch.chance(1, 6)
     ops = []
     depth = 1
